@@ -582,7 +582,8 @@ fn gen_plan(seed: u64, nsec3: bool) -> Plan {
     let mut qname: Vec<u8> = (0..qdepth).map(|_| r.below(2) as u8).collect();
     let fault_free = r.chance(2, 5);
     let rewrites = if fault_free { vec![] } else { (0..1 + r.usize_below(3)).map(|_| gen_rewrite(&mut r, nsec3)).collect() };
-    let (soft, hard) = *r.pick(&[(100u16, 500u16), (100, 500), (2, 8), (0, 1)]);
+    // (a hard limit below the soft limit is a legal configuration: above the hard limit the verdict is Bogus)
+    let (soft, hard) = *r.pick(&[(100u16, 500u16), (100, 500), (2, 8), (0, 1), (100, 2), (9, 0), (500, 100)]);
     Plan {
         sim,
         nsec3,
@@ -1071,6 +1072,11 @@ async fn scenario(p: Plan) {
                 }
             }
             // (a positive, non-expanded answer rests on its RRSIGs, not on NSEC3 records)
+            if involves_denial && over_hard && claim != Claim::Positive && (secure || !tampered) {
+                if exec::violate(&format!("{id}.iterations"), if secure { "secure-over-hard-limit" } else { "not-bogus-over-hard-limit" }, format!("{} {}: iteration count {} exceeds the hard limit {} (soft limit {}) but the response was accepted ({})", victim.name, qt, p.iterations, p.hard_limit, p.soft_limit, if secure { "Secure" } else { "not Bogus" })) {
+                    return;
+                }
+            }
             if secure && involves_denial && over_soft && claim != Claim::Positive {
                 if exec::violate(&format!("{id}.iterations"), "secure-over-soft-limit", format!("{} {}: Secure although the NSEC3 iteration count {} exceeds the soft limit {}", victim.name, qt, p.iterations, p.soft_limit)) {
                     return;
@@ -1093,7 +1099,7 @@ async fn scenario(p: Plan) {
                 // the server's answer itself contradicts RFC 1034 / 4592 (C10's subject): the
                 // validator rejecting it is not a completeness failure
                 exec::count("probe.server_claim_false_and_rejected");
-            } else if !tampered && !matches!(outcome, Outcome::Referral) && !(involves_denial && over_soft) {
+            } else if !tampered && !matches!(outcome, Outcome::Referral) && !(involves_denial && (over_soft || over_hard)) {
                 let shape = format!("{}{}", outcome_name(&outcome), if p.opt_out { ":opt-out" } else { "" });
                 if exec::violate(&format!("{id}.incomplete"), &shape, format!("{} {}: the authoritative server's own response (rcode {:?}, {} answers, {} authority records) was rejected: {e}; owners {:?} delegation {:?}", victim.name, qt, rcode, answer_recs.len(), delivered.authorities.len(), p.owners, p.delegation)) {
                     return;
